@@ -417,6 +417,7 @@ mtbl_sorter_iter(struct mtbl_sorter *s)
 		mtbl_res res = _mtbl_sorter_flush(s);
 
 		if (res != mtbl_res_success) {
+			mtbl_merger_options_destroy(&mopt);
 			free(it);
 			return (NULL);
 		}
